@@ -6,7 +6,7 @@
    end in Ok, in an error, or are cut short) — is valid. *)
 From Coq Require Import List NArith Bool.
 From PG Require Import Model.VS Model.Term Model.Solver Model.Registry Proofs.VSLaws Proofs.SolverSem
-  Proofs.SolverStore.
+  Proofs.SolverStore Proofs.GenEqSolver Gen.IncompatCtors.
 From Coq Require Import ZArith.
 From PG Require Import Model.Instances Proofs.SolverExamples.
 
@@ -41,6 +41,14 @@ Section C06.
       ext_ok O L reg r rv self -> ext_ok O L reg r rv other ->
       merge_dependents O self other = Good (Some mi) -> ext_ok O L reg r rv mi.
   Proof. exact (merge_dependents_ok O L reg r rv). Qed.
+
+  (* translator tie: the external constructors regenerated from the CURRENT text of
+     src/internal/incompatibility.rs are the constructors of the model these theorems are about *)
+  Theorem incompat_constructors_match_source :
+    (forall p v, gen_not_root O p v = not_root O p v)
+    /\ (forall p v m, gen_custom_version O p v m = custom_version O p v m)
+    /\ (forall p vs d, gen_from_dependency O p vs d = from_dependency O p vs d).
+  Proof. exact (incompat_ctors_match_source O). Qed.
 End C06.
 
 (* non-vacuity: two recorded runs over Range<Z> (one NoSolution with a learned incompatibility, one Ok after a
@@ -66,3 +74,4 @@ Print Assumptions store_valid_invariant.
 Print Assumptions prior_cause_valid.
 Print Assumptions from_dependency_valid.
 Print Assumptions merge_dependents_justified.
+Print Assumptions incompat_constructors_match_source.
